@@ -136,8 +136,11 @@ def nodupKeys : List String → Bool
   | [] => true
   | k :: ks => !ks.contains k && nodupKeys ks
 
+/-- `validateProcessor`.  Its third check ("processor identifier cannot contain '.'") reads `Key`, which
+    `GetFlows` only assigns AFTER this validation ran: it never fires, so it is not modelled (a dotted
+    name in a connection means "processor created by another flow"; the generator produces no dots). -/
 def procOk (p : PInst) : Bool :=
-  p.ptype != "" && !(p.key.toList.contains '.') && nodupKeys (p.params.map (·.1))
+  p.ptype != "" && nodupKeys (p.params.map (·.1))
 
 def flowYamlOk (f : XFlow) : Bool :=
   f.name != "" &&
@@ -147,7 +150,11 @@ def flowYamlOk (f : XFlow) : Bool :=
   connsOk f.req && connsOk f.res && f.procs.all procOk
 
 /-- `urltree` insertion of a filter URL ("URL part cannot be empty"); only the shapes the generator uses -/
-def urlOk (u : String) : Bool := (u.splitOn "/").all (· != "")
+def splitSlash : List Char → List Char → List (List Char)
+  | [], cur => [cur.reverse]
+  | c :: cs, cur => if c == '/' then cur.reverse :: splitSlash cs [] else splitSlash cs (c :: cur)
+
+def urlOk (u : String) : Bool := (splitSlash u.toList []).all (· != [])
 
 /-! ### processors (`CreateProcessor`) -/
 
@@ -208,11 +215,11 @@ def specificOk (q : QEntry) (ils : List QEntry) : Bool :=
   let should := hasSpill q || ils.any hasSpill
   !should || !(q.strat.kind == "fixed") || q.strat.mr.isSome
 
-def hostOf (u : String) : String := if u == "*" then "*" else (u.splitOn "/").headD ""
+def hostOf (u : String) : List Char := (splitSlash u.toList []).headD []
 
 /-- `quotaProviderValidator.Validate`'s `validateHost`; state = (file ↦ host, host ↦ file) -/
-def hostStep (file : Nat) (st : List (Nat × String) × List (String × Nat)) (u : String) :
-    Option (List (Nat × String) × List (String × Nat)) :=
+def hostStep (file : Nat) (st : List (Nat × List Char) × List (List Char × Nat)) (u : String) :
+    Option (List (Nat × List Char) × List (List Char × Nat)) :=
   let h := hostOf u
   match st.1.find? (·.1 == file) with
   | some (_, h0) => if h0 != h then none else
@@ -224,8 +231,8 @@ def hostStep (file : Nat) (st : List (Nat × String) × List (String × Nat)) (u
     | some (_, f0) => if f0 != file then none else some (st.1 ++ [(file, h)], st.2)
     | none => some (st.1 ++ [(file, h)], st.2 ++ [(h, file)])
 
-def hostSteps (file : Nat) : List (Nat × String) × List (String × Nat) → List String →
-    Option (List (Nat × String) × List (String × Nat))
+def hostSteps (file : Nat) : List (Nat × List Char) × List (List Char × Nat) → List String →
+    Option (List (Nat × List Char) × List (List Char × Nat))
   | st, [] => some st
   | st, u :: us =>
     match hostStep file st u with
@@ -254,18 +261,20 @@ def initChildren (kinds : List (String × String)) : List QEntry → Option (Lis
       let k := childKind pk il.strat
       if k == "none" then none else initChildren (kinds ++ [(il.id, k)]) rest
 
-/-- filter urls of the system flows one quota contributes (quota + attached internal limits;
-    an internal limit without url inherits its parent's) -/
+/-- filter urls of the system flows one quota contributes (quota + attached internal limits; an internal
+    limit without url inherits its parent's).  The header-based strategy has no system flow: its url is
+    never inserted into the url tree, hence never checked. -/
 def quotaUrls (q : QEntry) (ils : List QEntry) : List String :=
-  let rec go (known : List (String × String)) : List QEntry → List String
+  let rec go (known : List (String × String × String)) : List QEntry → List String
     | [] => []
     | il :: rest =>
-      let pu := ((known.find? (·.1 == il.parent.getD "")).map (·.2)).getD ""
+      let p := ((known.find? (·.1 == il.parent.getD "")).map (·.2)).getD ("", "")
       let u := match il.url with
-        | some u => if u != "" then u else pu
-        | none => pu
-      u :: go (known ++ [(il.id, u)]) rest
-  q.url.getD "" :: go [(q.id, q.url.getD "")] ils
+        | some u => if u != "" then u else p.1
+        | none => p.1
+      let k := childKind p.2 il.strat
+      (if k == "hdr" then [] else [u]) ++ go (known ++ [(il.id, u, k)]) rest
+  (if q.strat.kind == "hdr" then [] else [q.url.getD ""]) ++ go [(q.id, q.url.getD "", q.strat.kind)] ils
 
 inductive QRes where
   | ok (urls : List String)
@@ -281,7 +290,7 @@ def fileCheck (f : QFile) : QRes :=
   if f.quotas.any (fun q => q.url.isNone) then .reject else
   if !(f.quotas.all fun q => specificOk q (attach [q.id] f.internals)) then .reject else .ok []
 
-def filesCheck : Nat → List (Nat × String) × List (String × Nat) → List QFile → QRes
+def filesCheck : Nat → List (Nat × List Char) × List (List Char × Nat) → List QFile → QRes
   | _, _, [] => .ok []
   | i, st, f :: fs =>
     match fileCheck f with
